@@ -9,7 +9,7 @@ def extra(ctx):
     ok, exe, log = vlib.build_harness("c26", race=True)
     if not ok:
         return {"lines": ["HARNESS-ERROR race harness does not build: " + log.strip()[-600:]], "stats": stats}
-    n = {"quick": 8, "thorough": 240}[ctx["tier"]]
+    n = {"quick": 12, "thorough": 200}[ctx["tier"]]
     outdir = os.path.join(ctx["outdir"], "race")
     prop = {"id": "C26"}
     rc, out, trace, hstats = vlib.run_harness_once(exe, prop, ctx["tier"], ctx["seed"], "check", n, outdir, timeout=3000)
